@@ -11,6 +11,10 @@
 (* then on Recv returns an error that is not io.EOF -- unless everything,  *)
 (* including the end of the call, had already arrived.                     *)
 (*                                                                         *)
+(* Kind "pause": nothing fails, but the caller stops reading for a while   *)
+(* after p units (seconds: longer than any reasonable per-message          *)
+(* deadline): a download takes as long as its reader takes.                *)
+(*                                                                         *)
 (* Variant "asfound": the stream reader turns any Recv error into the end  *)
 (* of the content (the same code serves uploads on the server side);       *)
 (* "repaired": only io.EOF is the end.                                     *)
@@ -31,6 +35,7 @@ vars == <<len, kind, api, p, recv, ended, broken, read, cstate>>
 Init ==
   /\ len \in Lens /\ kind \in Kinds /\ api \in Apis /\ p \in 0..len
   /\ (kind = "none" => p = len)
+  /\ (kind = "pause" => api = "reader")        \* only a reader can be read slowly
   /\ recv = 0 /\ ended = FALSE /\ broken = FALSE /\ read = 0 /\ cstate = "run"
 
 ServerSend ==
@@ -41,7 +46,7 @@ ServerEnd ==
   /\ UNCHANGED <<len, kind, api, p, recv, broken, read, cstate>>
 (* the fault hits once p units are through (it may come too late to matter) *)
 Fault ==
-  /\ kind # "none" /\ ~broken /\ recv >= p /\ broken' = TRUE
+  /\ kind \notin {"none", "pause"} /\ ~broken /\ recv >= p /\ broken' = TRUE
   /\ UNCHANGED <<len, kind, api, p, recv, ended, read, cstate>>
 
 ClientTake ==
